@@ -31,11 +31,11 @@ def _run_one(case):
         return ["raise", type(ex).__name__, str(ex)[:200]]
 
 
-def query(cmd, cases):
+def query(cmd, cases, drv="C01"):
     """Ask the model driver about the state reached by each case."""
     if not cases:
         return []
-    outs = core.run_driver("C01", [sched.encode_case(c, cmd) for c in cases])
+    outs = core.run_driver(drv, [sched.encode_case(c, cmd) for c in cases])
     return [sched.parse_evs(o) for o in outs]
 
 
@@ -174,7 +174,7 @@ class C01(core.Property):
             live = [s for s in st if not s["done"]]
             if not live:
                 break
-            en = query("enabled", live)
+            en = query("enabled", live, self.id)
             for s, (evs, _q) in zip(live, en):
                 x = rng.random()
                 if s["rest"] and (not evs or x < 0.45):
@@ -190,7 +190,7 @@ class C01(core.Property):
         for s in st:
             s["evs"].extend(s["rest"])
         cases = [{"cfg": s["cfg"], "evs": s["evs"]} for s in st]
-        dr = query("drain", cases)
+        dr = query("drain", cases, self.id)
         for c, (evs, _q) in zip(cases, dr):
             c["evs"] = c["evs"] + evs
         return cases
@@ -204,7 +204,7 @@ class C01(core.Property):
             frontier = [{"cfg": cfg, "evs": [], "rest": list(msgs)}]
             finished = []
             while frontier:
-                en = query("enabled", frontier)
+                en = query("enabled", frontier, self.id)
                 nxt = []
                 for s, (evs, _q) in zip(frontier, en):
                     choices = list(evs) + ([s["rest"][0]] if s["rest"] else [])
